@@ -580,7 +580,7 @@ def enum_vectors(tier):
 
 
 SUBS = [
-    Sub('fillna', _fillna_case, run_fillna, quick=4000, thorough=15000,
+    Sub('fillna', _fillna_case, run_fillna, quick=8000, thorough=15000,
         rule='vectors and 1-3 column frames from a NaN-run grammar (alternating NaN/value runs of length 0-4, <= 20 rows; further '
              'columns share the mask, follow their own grammar or are all-NaN); method = None, one of ffill/bfill/constant/nona/fnna/ffill_na/ffill_0, '
              'a list of 2-3 of ffill/bfill/constant/nona/fnna, or (vectors) ffill_na/ffill_0 followed by 1-2 of them; limit None/1/2/3; each case on the '
@@ -591,7 +591,7 @@ SUBS = [
         floor=0.3, class_floors={'run_longer_than_limit': 0.06, 'tail_fill_with_trailing_run': 0.02, 'allnan_row_2d': 0.1, 'empty': 0.02,
                                  'all_nan': 0.02, 'rows_dropped': 0.08, 'm=ffill_0': 0.03, 'm=ffill_na': 0.03, 'm=const': 0.08,
                                  'interior_run': 0.2, 'partial_nan_row_2d': 0.08}),
-    Sub('nona_fn', _nona_case, run_nona, quick=1500, thorough=4000,
+    Sub('nona_fn', _nona_case, run_nona, quick=2000, thorough=4000,
         rule='the same vectors / frames through nona(x) (edge None on ndarray + both pandas objects; edge 1 / -1 on the pandas objects). Oracle: exactly '
              'the all-NaN rows go (edge 1: only those after the last valid row, edge -1: only those before the first), labels kept, array == .values, '
              'argument unchanged. non-trivial = the input has an all-NaN row or is empty',
